@@ -1,3 +1,81 @@
+// fakegit is the model git as an executable named `git`, put first on PATH for
+// CLI-level runs. It reads $FAKEGIT_DIR/repo.gob and plan.json and appends one
+// JSON record per invocation to log.jsonl.
 package main
 
-func main() {}
+import (
+	"bytes"
+	"encoding/gob"
+	"encoding/json"
+	"fmt"
+	"os"
+	"path/filepath"
+	"syscall"
+
+	"verif/modelgit"
+	"verif/mrepo"
+)
+
+func main() {
+	dir := os.Getenv("FAKEGIT_DIR")
+	if dir == "" {
+		fmt.Fprintln(os.Stderr, "fakegit: FAKEGIT_DIR not set")
+		os.Exit(127)
+	}
+	var repo mrepo.Repo
+	f, err := os.Open(filepath.Join(dir, "repo.gob"))
+	if err != nil {
+		fmt.Fprintln(os.Stderr, "fakegit:", err)
+		os.Exit(127)
+	}
+	if err := gob.NewDecoder(f).Decode(&repo); err != nil {
+		fmt.Fprintln(os.Stderr, "fakegit:", err)
+		os.Exit(127)
+	}
+	f.Close()
+	if repo.Missing == nil {
+		repo.Missing = map[mrepo.ID]bool{}
+	}
+	var plan modelgit.Plan
+	if b, err := os.ReadFile(filepath.Join(dir, "plan.json")); err == nil {
+		json.Unmarshal(b, &plan)
+	}
+	args := os.Args[1:]
+	kind, _, _ := modelgit.Classify(args)
+	// n-th invocation of this kind = number of records of the kind already logged
+	nth := 0
+	logPath := filepath.Join(dir, "log.jsonl")
+	if b, err := os.ReadFile(logPath); err == nil {
+		dec := json.NewDecoder(bytes.NewReader(b))
+		for dec.More() {
+			var inv modelgit.Invocation
+			if dec.Decode(&inv) != nil {
+				break
+			}
+			if inv.Kind == kind {
+				nth++
+			}
+		}
+	}
+	// reserve the slot before running, so that a concurrent same-kind
+	// invocation (there is none in git-sizer) would still be counted
+	env := modelgit.NewEnv(&repo, &plan)
+	exit, inv := env.Run(args, os.Environ(), os.Stdin, os.Stdout, nth)
+	if lf, err := os.OpenFile(logPath, os.O_APPEND|os.O_CREATE|os.O_WRONLY, 0o644); err == nil {
+		b, _ := json.Marshal(inv)
+		lf.Write(append(b, '\n'))
+		lf.Close()
+	}
+	if exit < 0 {
+		if exit == -13 {
+			// died writing to a closed pipe
+			syscall.Kill(os.Getpid(), syscall.SIGPIPE)
+		}
+		syscall.Kill(os.Getpid(), syscall.Signal(-exit))
+		select {}
+	}
+	if exit != 0 {
+		fmt.Fprintf(os.Stderr, "fatal: model git: %s exits %d\n", kind, exit)
+	}
+	os.Exit(exit)
+}
